@@ -9,7 +9,7 @@ from lib import esc, unesc
 
 THEOREMS = ['C03.C03_kept_iff', 'C03.C03_marker_gone', 'C03.C03_unguarded_unchanged', 'C03.C03_spec_append',
             'C03.C03_inline_present', 'C03.C03_para_present', 'C03.C03_target_table', 'C03.C03_refines_inline_partial',
-            'C03.C03_model_line_by_line', 'C03.C03_refines_partial']
+            'C03.C03_model_line_by_line', 'C03.C03_refines_partial', 'C03.C03_marker_gone_text']
 TARGETS = [(d, a, v) for d in lib.DISTS for (a, v) in lib.ABIVERS]
 WORDS = ['arch', 'debian', 'ubuntu', 'opensuse', 'whonix', 'apt', 'pacman', 'zypper', 'abi3', 'abi4', 'apparmor3.0',
          'apparmor4.0', 'apparmor4.1', 'apparmor4', 'fedora', 'abi', 'apparmor4x1']
